@@ -70,6 +70,14 @@ def run_ex(vi, so, script, files, fault=None, mt=None):
     return r, d, lg.decode('latin-1')
 
 
+def leaked(lg):
+    """save descriptors the shim saw opened but never closed"""
+    import re
+    opened = [int(m.group(1)) for m in re.finditer(r'^open \S+ -> (\d+)$', lg, re.M)]
+    closed = [int(m.group(1)) for m in re.finditer(r'^close fd=(\d+) ', lg, re.M)]
+    return len(opened) - len(closed)
+
+
 def fault_case(args):
     """one fault, two runs: (1) stop right after the faulted :w to inspect the file, (2) continue with quit / retry"""
     vi, so, bname, content, edit, want, cmd, fault, phase = args
@@ -84,6 +92,9 @@ def fault_case(args):
     res['fired'] = lg.count('INJECTED') >= fault.count(',') + 1
     if not res['fired']:
         return res
+    if leaked(lg) > 0:
+        # every failed save that keeps its descriptor brings the day nearer on which no file can be opened any more: retries then fail for good
+        res['bad'].append(('descriptor-leak', 'buffer %s, %s with fault %s: the descriptor of the failed save was never closed' % (bname, cmd, fault), wit))
     if r.timed_out or S(0) not in r.out:
         res['bad'].append(('harness:no-output', 'no sentinel / timeout in run 1', wit))
         return res
@@ -130,6 +141,33 @@ def fault_case(args):
     if S(5) in r.out:
         res['bad'].append(('quit-refused-after-retry', 'buffer %s, %s with fault %s: :q refused although the retry succeeded' % (bname, cmd, fault), wit))
     return res
+
+
+def many_failures_case(args):
+    """a long history of failed saves (a full device, an unwritable directory) under a small descriptor limit, then a retry to a healthy target"""
+    vi, idx = args
+    import resource
+    R = rng('c03', 'many', idx)
+    nfail = R.choice([40, 70, 120])
+    lim = R.choice([24, 32, 48])
+    bad_target = R.choice([b'w! /dev/full', b'1,1w! /dev/full', b'w! nodir/x', b'w nodir/x'])
+    content = b''.join(b'line %d\n' % i for i in range(R.choice([1, 3, 900])))
+    script = b'1s/^/X/\n' + (bad_target + b'\n') * nfail + b'ec ' + S(0) + b'\nw!\nec ' + S(1) + b'\nq\nec ' + S(2) + b'\n'
+    d = common.case_dir('s')
+    common.write_files(d, {'f1': content})
+    pre = lambda: resource.setrlimit(resource.RLIMIT_NOFILE, (lim, lim))
+    r = common.run([vi, '-s', '-e', 'f1'], script + common.EX_QUIT, d, common.base_env(d), 60, preexec=pre)
+    got = common.readf(d, 'f1')
+    common.rmcase(d)
+    wit = {'index': idx, 'failures': nfail, 'descriptor_limit': lim, 'command': bad_target.decode()}
+    msg = seg(r.out, 0, 1)
+    if r.timed_out or msg is None:
+        return ('inconclusive', None, wit)
+    if b'[w]' not in msg or got != b'X' + content:
+        return ('retry-fails-after-many-failures', 'after %d failed "%s" (descriptor limit %d) the retry :w! did not save the text: %r' % (nfail, bad_target.decode(), lim, msg[:80]), wit)
+    if S(2) in r.out:
+        return ('quit-refused-after-retry', 'after %d failed saves and a good retry :q is refused' % nfail, wit)
+    return ('ok', None, wit)
 
 
 def dry_run(vi, so, content, edit, cmd):
@@ -329,11 +367,17 @@ def run(tier, V):
             mok += 1
         elif key != 'ok-trivial':
             V.violation(key, what, wit)
-    cov = {'evaluations': len(jobs) + len(gjobs) + nm, 'distinct_nontrivial': fired + len(gjobs) + mok, 'multi_buffer_guard_scenarios': nm, 'multi_buffer_scenarios_with_a_dirty_changed_file': mok, 'faults_injected_and_fired': fired, 'fault_runs': len(jobs),
+    nmany = 24 if tier == 'quick' else 200
+    for key, what, wit in pmap(many_failures_case, [(vi, common.seed() * 31 + i) for i in range(nmany)]):
+        if key == 'inconclusive':
+            V.inconclusive += 1
+        elif key != 'ok':
+            V.violation(key, what, wit)
+    cov = {'evaluations': len(jobs) + len(gjobs) + nm + nmany, 'many_failure_histories': nmany, 'distinct_nontrivial': fired + len(gjobs) + mok, 'multi_buffer_guard_scenarios': nm, 'multi_buffer_scenarios_with_a_dirty_changed_file': mok, 'faults_injected_and_fired': fired, 'fault_runs': len(jobs),
            'syscall_sequences': seqs, 'guard_cases': [g[2] for g in gjobs], 'exhaustive': True,
            'rule': ('for each buffer shape (empty / one line / one batch / several batches / lines >= 4096 / mixture) and save command, a dry run under the shim gives the open/write/close sequence of the save; '
                     'then EVERY position x EVERY kind (%s error returns; short counts 1, half, len-1) is injected, one fault per run (2 processes per fault: inspect file after the command; continue with :q, :b, :w!, :q). '
-                    'non-trivial = the shim log shows the fault fired (INJECTED).  guards: full truth table target {own, foreign-existing, absent} x mtime {older, equal, newer; for the foreign file also 0} x {w, w!}; + random scenarios with 2-3 buffers, files replaced/touched behind the editor, any buffer current, then w/wq/x/xa or a write to another open buffer\'s file without !.' % ','.join(err_kinds)),
+                    'non-trivial = the shim log shows the fault fired (INJECTED).  guards: full truth table target {own, foreign-existing, absent} x mtime {older, equal, newer; for the foreign file also 0} x {w, w!}; + random scenarios with 2-3 buffers, files replaced/touched behind the editor, any buffer current, then w/wq/x/xa or a write to another open buffer\'s file without !; + histories of 40-120 failed saves (full device, missing directory) under a descriptor limit of 24-48, then a retry; the shim log is also checked for save descriptors left open by a failed save.' % ','.join(err_kinds)),
            'samples': [{'buffer': j[2], 'command': j[6], 'fault': j[7]} for j in jobs[::max(1, len(jobs) // 5)]][:6]}
     assumptions = ['a save fd is a descriptor opened with O_WRONLY|O_CREAT; ftruncate faults are outside the quantifier (open/write/close)',
                    'the retry after a failure is :w! (a torn write legitimately advanced the file\'s mtime)',
